@@ -734,11 +734,17 @@ fn check_once(c: &Case, ctx: &mut CaseCtx) -> Result<(), Fail> {
                                     format!("build_hnsw_index: mapping {mapping:?} / {} nodes, stored keys {want:?}", index.len()),
                                 )?;
                             }
-                            ctx.label(format!("explicit index built ({stname})"));
+                            // the caller's configuration names the metric the index ranks and scores by
+                            let metric = match (*cfg / 3) % 4 {
+                                2 => Metric::Euclid,
+                                3 => Metric::Dot,
+                                _ => Metric::Cosine,
+                            };
+                            ctx.label(format!("explicit index built ({stname}, {})", metric.name()));
                             let snap = Snap {
                                 map: d.live.iter().map(|(k, e)| (k.clone(), e.v.clone())).collect(),
                                 dim: d.uniform_dim().unwrap_or(0),
-                                metric: Metric::Cosine,
+                                metric,
                             };
                             hx = if d.live.is_empty() { None } else { Some(Explicit { index, mapping, snap }) };
                         },
@@ -789,8 +795,9 @@ fn check_once(c: &Case, ctx: &mut CaseCtx) -> Result<(), Fail> {
                         },
                     };
                     let why = |_: &str| -> &'static str { "key-not-in-index" };
-                    if let Err(fl) = oracle::check(&Mode::Sound, &res, &el, &why, q, k, Metric::Cosine) {
-                        ctx.fail(format!("search_with_hnsw:{}", fl.kind), format!("search_with_hnsw q={q:?} k={k} -> {res:?}: {}", fl.msg))?;
+                    if let Err(fl) = oracle::check(&Mode::Sound, &res, &el, &why, q, k, x.snap.metric) {
+                        let tag = if x.snap.metric == Metric::Cosine { "search_with_hnsw".to_string() } else { format!("search_with_hnsw.{}", x.snap.metric.name()) };
+                        ctx.fail(format!("{tag}:{}", fl.kind), format!("{tag} q={q:?} k={k} -> {res:?}: {}", fl.msg))?;
                     }
                 } else {
                     // candidates from the index, re-ranked against the vectors stored *now*
